@@ -24,7 +24,7 @@
 (* Where the actions of DESIGN.md 3.6 are:  Invite = Pub with head.webrtc  *)
 (* (ANY non-nil value marks an invitation, topic.go:1072);  Ringing,       *)
 (* Accept, Offer/Answer/IceCandidate, HangUp = the branches of CallEvent;  *)
-(* Timeout = the "CallTimeout" request (the harness makes the REAL timer    *)
+(* Timeout = the "C15Timeout" request (the harness makes the REAL timer    *)
 (* expire);  PartyLeaves = "Leave" / "Disconnect" of a party session;      *)
 (* StaleOrForeignEvent = every branch of Note / CallEvent that returns     *)
 (* Res(S, 0) or Res(S, 409).                                               *)
@@ -177,9 +177,9 @@ Step(S, a) ==
   ELSE
   CASE a.a = "Pub" -> Pub(S, a)
     [] a.a = "C15Note" -> Note(S, a)
-    [] a.a = "CallTimeout" ->
+    [] a.a = "C15Timeout" ->
          IF ~S.call.active THEN Res(S, 0)
-         ELSE IF S.call.accepted THEN Res(S, -1)                \* the real timer is stopped at accept: cannot fire
+         ELSE IF S.call.accepted THEN Res(S, 0)                 \* the real timer is stopped at accept (calls.go:313): it cannot fire, the driver does nothing
          ELSE EndCall(S, "missed", "", {}, "", 0)               \* terminateCallInProgress(true)
     [] a.a = "Sub" ->
          IF a.t = "p12" THEN (IF a.s \notin MemberSess THEN Res(S, -1)
@@ -291,7 +291,7 @@ M_StaleIgnored(P, a, O, Q) ==
 ExpectedKind(P, a) ==
   CASE IsCallNote(a) /\ a.event = EvHangUp ->
          IF P.call.accepted THEN "finished" ELSE IF Actor(a) = P.call.origUid THEN "missed" ELSE "declined"
-    [] a.a = "CallTimeout" -> "missed"
+    [] a.a = "C15Timeout" -> "missed"
     [] a.a \in {"Leave", "Disconnect"} -> "disconnected"
     [] OTHER -> "none"
 
@@ -318,7 +318,7 @@ M_EndsExactlyOnce(P, a, O, Q) ==
           If(IsCallNote(a) /\ a.event = EvHangUp /\ a.t = "p12" /\ a.seq = P.call.seq /\ a.s \in P.live
                /\ (IF P.call.accepted THEN a.s \in P.call.parties ELSE (a.s = P.call.orig \/ (Actor(a) \in Members /\ Actor(a) # P.call.origUid)))
                => Ended(P, Q), "EndsExactlyOnce:hang_up_ends_the_call")
-          \cup If(a.a = "CallTimeout" /\ ~P.call.accepted => Ended(P, Q), "EndsExactlyOnce:timeout_ends_unanswered_call")
+          \cup If(a.a = "C15Timeout" /\ ~P.call.accepted => Ended(P, Q), "EndsExactlyOnce:timeout_ends_unanswered_call")
           \cup If(a.a = "Leave" /\ a.t = "p12" /\ a.s \in P.call.parties /\ a.s \in P.att => Ended(P, Q), "EndsExactlyOnce:party_leave_ends_the_call")
           \cup If(a.a = "Disconnect" /\ a.s \in P.call.parties /\ a.s \in P.live => Ended(P, Q), "EndsExactlyOnce:party_disconnect_ends_the_call")
         ELSE {})
